@@ -204,7 +204,10 @@ HX_SOURCES = None
 
 def hx_sources():
     return sorted(os.path.join(HARNESS, f) for f in os.listdir(HARNESS)
-                  if f.endswith(".c") and (f == "hx.c" or f.startswith("ops_")))
+                  if f.endswith(".c") and (f in ("hx.c", "wrap_sys.c") or f.startswith("ops_")))
+
+
+WRAP_FLAGS = ["-Wl,--wrap=mmap,--wrap=munmap,--wrap=mprotect,--wrap=mlock,--wrap=munlock,--wrap=malloc,--wrap=calloc,--wrap=posix_memalign,--wrap=free"]
 
 
 def build_lib(ctx, variant, flavour="plain"):
@@ -227,7 +230,7 @@ def build_hx(ctx, variant, flavour="plain", extra_sources=(), extra_flags=(), na
     fl = build_sodium.FLAVOUR_FLAGS[flavour]
     srcs = list(extra_sources) if name else hx_sources()
     cmd = (["gcc", "-w"] + fl + build_sodium.include_flags(os.path.dirname(lib)) + ["-I" + HARNESS] +
-           ["-DSODIUM_VERIF=1", "-DHX_VARIANT_" + variant.upper() + "=1"] + list(extra_flags) + srcs + [lib, "-lpthread", "-o", exe])
+           ["-DSODIUM_VERIF=1", "-DHX_VARIANT_" + variant.upper() + "=1"] + list(extra_flags) + srcs + [lib, "-lpthread"] + (WRAP_FLAGS if not name else []) + ["-o", exe])
     p = subprocess.run(cmd, capture_output=True, text=True)
     if p.returncode != 0:
         raise BrokenCheck("harness does not compile against the current tree: " + p.stderr[-2000:])
